@@ -1320,6 +1320,10 @@ size_t ZSTD_decompressContinue(ZSTD_DCtx* dctx, void* dst, size_t dstCapacity, c
             }
             /* empty block */
             if (bp.lastBlock) {
+                /* end of frame reached through an empty last block : same content size check as after a non-empty one */
+                RETURN_ERROR_IF(dctx->fParams.frameContentSize != ZSTD_CONTENTSIZE_UNKNOWN
+                             && dctx->decodedSize != dctx->fParams.frameContentSize,
+                                corruption_detected, "");
                 if (dctx->fParams.checksumFlag) {
                     dctx->expected = 4;
                     dctx->stage = ZSTDds_checkChecksum;
